@@ -423,3 +423,39 @@ class EnsembleTensorProduct(E2Contract):
                 eq("product-states", out["states"], [np.kron(inp["vecs"][0][i], inp["vecs"][1][j]) for i, j in idxs],
                    "state((x1, x2)) == state1(x1) (x) state2(x2) (subsystems in ascending name order)"),
                 eq("marginals", [out["marg0"], out["marg1"]], [list(inp["ps"][0]), list(inp["ps"][1])], "each ensemble's distribution is the marginal over the other's variables")]
+
+
+class LegacyProbDist(E2Contract):
+    """quara.objects.prob_dist.ProbDist (the small predecessor of MultinomialDistribution, still importable): tuple access is row-major in the
+    reported shape and agrees with serial access"""
+    name = "ProbDist.__getitem__"
+    prop = "C16"
+    targets = ("quara.objects.prob_dist:ProbDist.__getitem__",)
+    frame = True
+    n_conformance = 1
+    max_paths = 4
+
+    def configs(self, tier):
+        return [(2, 3), (3, 2), (2, 3, 2)]
+
+    def inputs(self, W, cfg, mk):
+        return dict(ps=mk.array("p", _prod(cfg)))
+
+    def run(self, W, cfg, inp):
+        pd = W.mod("quara.objects.prob_dist").ProbDist(inp["ps"], tuple(cfg))
+        idxs = list(itertools.product(*[range(s) for s in cfg]))
+        return dict(by_tuple=[pd[i] for i in idxs], by_serial=[pd[k] for k in range(len(idxs))], shape=list(pd.shape))
+
+    def post(self, W, cfg, inp, out):
+        return [eq("tuple==row-major-position", out["by_tuple"], list(inp["ps"]), "prob_dist[(x1..xn)] == ps[row-major position of (x1..xn) in shape]"),
+                eq("serial", out["by_serial"], list(inp["ps"]), "prob_dist[k] == ps[k]"),
+                eq("shape", out["shape"], list(cfg), "the shape is the one given")]
+
+
+from .C06_all import ZeroProbabilityBranch as _ZeroBranch
+
+
+class JointWithImpossibleOutcomeUnderC16(_ZeroBranch):
+    """joint distributions when an outcome has probability zero (the truncate-and-renormalise branch): each block P(x1) P(x2 | x1) keeps its weight
+    P(x1); a POVM measured afterwards gets a zero row - C06's contract, re-checked under C16"""
+    prop = "C16"
